@@ -152,8 +152,12 @@ def main():
         if not hist:
             continue
 
+        hist = [h for h in hist if h["checks"]] or hist      # an entry without checks = the patch no longer applied (later fix: commit)
+
         def rv(h):
             cs = list(h["checks"].values())
+            if not cs:
+                return "n/a"
             if any(c["exit"] != 0 for c in cs):
                 return "ALARM"
             return "note" if any(c.get("fallback_note") for c in cs) else "quiet"
